@@ -13,7 +13,7 @@ ASSUMPTIONS = ["values are non-negative ints with totals < 2^53", "rnp with numb
                "an exception on an in-quantifier input counts as a violation (DESIGN §3)"]
 FLOORS = {"quick": {"distinct_nontrivial": 1500}, "thorough": {"distinct_nontrivial": 8000}}
 
-CLASSES = ("small", "zeros", "equal", "ties", "kgtn", "big", "huge", "grid", "perfect", "powers", "onehuge")
+CLASSES = ("small", "zeros", "equal", "ties", "kgtn", "big", "huge", "bignear", "grid", "perfect", "powers", "onehuge")
 
 
 def plan(tier, seed):
